@@ -152,9 +152,10 @@ theorem copies_after_add_keep (m : Tables) (t : Nat) (d : Bytes) (srcs : List By
 Hypotheses, all explicit:
 * `WFMap m`  — the builder's map invariant (strictly ascending tags: `history_sorted`) and every
   tag is a `u32`;
-* `Fits m`   — the container's own size limits: fewer than 4096 tables (the `u16` `searchRange`
-  of `SearchRange::compute` traps at 4096) and `fileSize m` = 12 + 16·n + Σ round4(len) < 2^32
-  (`u32` positions);
+* `Fits m`   — the container's own size limits: at most 65535 tables (`numTables` is a `u16`:
+  `TableDirectory::from_table_records` asserts it) and `fileSize m` = 12 + 16·n + Σ round4(len)
+  < 2^32 (`u32` positions).  (Until /repo 0cd8c18 the limit was 4095 tables: the `u16`
+  `search_range` of `SearchRange::compute` panicked at 4096; the fields now saturate.);
 * `build m = some f` — `f` is the file `FontBuilder::build` returns. -/
 
 /-- Within the size limits `build` does not trap. -/
@@ -280,6 +281,48 @@ theorem whole_file_checksum (m : Tables) (hw : WFMap m) (hf : Fits m) (f : Bytes
   subst hb
   exact whole_checksum m hw.1 d (lookup_mem m _ d hh) hl
 
+/-! ### the binary-search assist fields of the header
+
+`searchRange`, `entrySelector`, `rangeShift` only speed up a binary search (`FontRef` ignores
+them).  Below 4096 tables they are the OpenType formula; from 4096 tables on `16·2^⌊log₂ n⌋` does
+not fit the `u16` field and saturates (`SearchRange::compute` after /repo 0cd8c18). -/
+
+/-- The first twelve bytes of the built file: version 0x00010000, `numTables`, and the three
+search fields `SearchRange::compute(n, 16)` yields, each a `u16`. -/
+theorem header_fields (m : Tables) (hf : Fits m) (f : Bytes) (hb : build m = some f) :
+    f.take 12 = be4 0x00010000 ++ be2 m.length ++ be2 (searchRange m.length 16).1 ++
+        be2 (searchRange m.length 16).2.1 ++ be2 (searchRange m.length 16).2.2 ∧
+      (searchRange m.length 16).1 < 65536 ∧ (searchRange m.length 16).2.1 < 65536 ∧
+      (searchRange m.length 16).2.2 < 65536 := by
+  rw [build_eq m hf] at hb
+  simp only [Option.some.injEq] at hb
+  subst hb
+  refine ⟨?_, searchRange_u16 _ _⟩
+  unfold dirOf dirBytes
+  rw [sortedOf_length]
+  simp [be4, be2]
+
+/-- Fewer than 4096 tables: the fields are exactly the OpenType formula
+(`searchRange = 16·2^⌊log₂ n⌋`, `entrySelector = ⌊log₂ n⌋`, `rangeShift = 16·n − searchRange`). -/
+theorem search_fields_spec (n : Nat) (h : n < 4096) :
+    searchRange n 16 = (2 ^ Nat.log2 n * 16, Nat.log2 n, n * 16 - 2 ^ Nat.log2 n * 16) :=
+  searchRange_ok n h
+
+/-- 4096 to 65535 tables: `searchRange` saturates at 65535, `entrySelector` is still `⌊log₂ n⌋`
+(at most 15), `rangeShift` is `16·n − 16·2^⌊log₂ n⌋` (computed from the unclamped search range)
+saturated at 65535. -/
+theorem search_fields_saturated (n : Nat) (h1 : 4096 ≤ n) (h2 : n ≤ 65535) :
+    searchRange n 16 = (65535, Nat.log2 n, min (n * 16 - 2 ^ Nat.log2 n * 16) 65535) ∧
+      12 ≤ Nat.log2 n ∧ Nat.log2 n ≤ 15 :=
+  ⟨searchRange_sat n h1 h2, (Nat.le_log2 (by omega)).2 (by omega), log2_le_15 n h2⟩
+
+example : searchRange 4095 16 = (32768, 11, 32752) := by decide
+example : searchRange 4096 16 = (65535, 12, 0) := by decide
+example : searchRange 4097 16 = (65535, 12, 16) := by decide
+example : searchRange 8191 16 = (65535, 12, 65520) := by decide
+example : searchRange 8192 16 = (65535, 13, 0) := by decide
+example : searchRange 65535 16 = (65535, 15, 65535) := by decide
+
 /-! ### the hypotheses are satisfiable, and histories produce them -/
 
 /-- every history whose tags are `u32`s yields a well-formed map (so the theorems above apply to
@@ -335,5 +378,45 @@ example :
       (build m).isSome = true := by
   refine ⟨⟨by simp [Sorted], by simp⟩, ⟨by simp, by simp [fileSize, bodyLen, round4]⟩, by decide, ?_⟩
   rw [build_eq _ ⟨by simp, by simp [fileSize, bodyLen, round4]⟩]; rfl
+
+/-- non-vacuity above the old limit: 4096 empty tables (tags 0..4095) satisfy `WFMap` and `Fits`,
+so the font builds, opens and its header carries the saturated fields — obtained from the theorems,
+without evaluating the 4096-table build. -/
+example :
+    let m : Tables := (List.range 4096).map (fun i => (i, []))
+    WFMap m ∧ Fits m ∧ ∃ f, build m = some f ∧ f.length = 65548 ∧
+      openFont f = .ok { data := f, numTables := 4096 } ∧
+      f.take 12 = [0, 1, 0, 0, 16, 0, 255, 255, 0, 12, 0, 0] := by
+  intro m
+  have hlen : m.length = 4096 := by simp [m]
+  have hbody : ∀ k, bodyLen ((List.range k).map (fun i => ((i, []) : Nat × Bytes))) = 0 := by
+    intro k
+    induction k with
+    | zero => rfl
+    | succ k ih =>
+      rw [List.range_succ, List.map_append, bodyLen_perm List.perm_append_comm]
+      simp [bodyLen, round4, ih]
+  have hw : WFMap m := by
+    refine ⟨?_, ?_⟩
+    · unfold Sorted
+      simp only [m, List.pairwise_map]
+      exact List.pairwise_lt_range
+    · intro e he
+      simp only [m, List.mem_map, List.mem_range] at he
+      obtain ⟨i, hi, rfl⟩ := he
+      simp only []; omega
+  have hfits : Fits m := by
+    refine ⟨by omega, ?_⟩
+    unfold fileSize
+    rw [hlen, hbody 4096]; omega
+  obtain ⟨f, hb⟩ := build_total m hfits
+  refine ⟨hw, hfits, f, hb, ?_, ?_, ?_⟩
+  · rw [built_size m hfits f hb]; unfold fileSize; rw [hlen, hbody 4096]
+  · have := build_opens m hw hfits f hb
+    rw [hlen] at this; exact this
+  · have := (header_fields m hfits f hb).1
+    rw [hlen] at this
+    rw [this]
+    decide
 
 end FontVerif.C06
